@@ -1,13 +1,14 @@
 (* Model/GsCases.v — evaluation of recorded generate_state traces against Model/GenState. *)
 From Coq Require Import ZArith NArith List Bool Floats.
-From V Require Import F64 Gradual SvCases GenState.
+From V Require Import F64 Gradual SvCases GenState GenStateMania.
 Import ListNotations.
 Open Scope Z_scope.
 
 Inductive gs_case :=
 | GOsu (i : osu_in)
 | GTaiko (i : taiko_in)
-| GCatch (i : catch_in).
+| GCatch (i : catch_in)
+| GMania (i : mania_in).
 
 Definition gs_run (c : gs_case) : list Z * list Z :=
   match c with
@@ -17,6 +18,8 @@ Definition gs_run (c : gs_case) : list Z * list Z :=
                 (taiko_state_list s, taiko_state_list (taiko_generate (taiko_feed_back i s)))
   | GCatch i => let s := catch_generate i in
                 (catch_state_list s, catch_state_list (catch_generate (catch_feed_back i s)))
+  | GMania i => let s := mania_generate i in
+                (mania_state_list s, mania_state_list (mania_generate (mania_feed_back i s)))
   end.
 
 (* 0 = agrees, 1 = first generation differs, 2 = second generation differs *)
